@@ -172,6 +172,16 @@ mod raw {
                         outvec.len() + errvec.len(),
                     )?;
                 }
+                if let Some(deadline) = deadline {
+                    // Check the deadline after every exchange.  poll() only
+                    // times out when no stream is ready, so a subprocess
+                    // that keeps a stream ready all the time (e.g. by
+                    // writing faster than we read) would never let us
+                    // notice that the time is up.
+                    if Instant::now() >= deadline {
+                        return Err(io::Error::new(io::ErrorKind::TimedOut, "timeout"));
+                    }
+                }
             }
 
             Ok(())
